@@ -317,7 +317,9 @@ fn check(c: &Case) -> Verdict {
     // Ok(_) and Err(_) are both fine; a panic unwinds into the engine's guard (key = panic signature), an abort kills the worker
     let out = run(t, &bytes);
     let (nt, class) = nontrivial(t, &bytes, &out);
-    Verdict::pass(nt, format!("{}:{}", t.name, class))
+    // an2..an9 are one alias list of the Renegade loader: one histogram row
+    let label = if t.name.len() == 3 && t.name.starts_with("an") && t.name != "an1" && t.name != "ans" { "an2-9" } else { t.name };
+    Verdict::pass(nt, format!("{label}:{class}"))
 }
 
 /// input class of an abort / heap-cap hit: the extension (lower case, as the dispatcher sees it) or the api
@@ -552,7 +554,8 @@ fn target_cases(ti: usize) -> BoxedStrategy<Case> {
             8,
             (stream::tokens(emu, false, 24), prop::bool::weighted(0.15), prop::bool::weighted(0.1), with_sauce())
                 .prop_map(move |(toks, bom, keep_sixel, m)| {
-                    let mut b = stream::render(&toks, 80, 25, 9999);
+                    // numeric parameters capped at 999: rows allocated per cursor-movement number are C03's subject (memory bounded by numbers in the input)
+                    let mut b = stream::render(&toks, 80, 25, 999);
                     if !keep_sixel {
                         defuse_sixel(&mut b);
                     }
@@ -793,7 +796,7 @@ fn main() {
     );
     eng.assume("release profile semantics (overflow-checks off, debug-assertions off), as a user of the shipped crate sees it");
     eng.assume("file names always carry an extension (Buffer::from_bytes unwraps it); PaletteFormat::Ase is not a loader (todo!() for every input) and is not called");
-    eng.assume("hangs and memory growth are C03's subject: timeouts are counted as inconclusive; sixel decode threads are given the time parse_with_parser gives them");
+    eng.assume("hangs and memory growth are C03's subject: timeouts are counted as inconclusive; numbers in generated terminal streams are capped at 999 so that cursor movement cannot allocate gigabytes of rows; sixel decode threads are given the time parse_with_parser gives them");
     let thorough = eng.is_thorough();
     let worker = std::env::var("ICYV_WORKER").is_ok();
 
